@@ -267,7 +267,8 @@ impl Prop for C14 {
                     if i > 0 {
                         pw = pw.mul(&xd);
                     }
-                    if !in_range(&pw, 900) || !in_range(&pw.mul(&d(ci)), 900) {
+                    // terms, powers AND the bare coefficients (intermediates of Horner/Estrin contain them)
+                    if !in_range(&pw, 900) || !in_range(&pw.mul(&d(ci)), 900) || !in_range(&d(ci), 900) {
                         return false;
                     }
                 }
